@@ -130,6 +130,11 @@ def run(tier, seed, replay=None):
         else:
             p = g.basic(nfam=rng.choice([1, 2]), nested=False, wildcard=False, generic_payloads=False, max_members=3)
             p.trait_unsafe = rng.random() < 0.3
+            if rng.random() < 0.4:
+                # items of different kinds may share a name (types live in another namespace than fns and consts)
+                names = [n_ for k_, n_, _ in p.items if k_ in ("fn", "const")]
+                if names and not any(k_ == "type" for k_, _, _ in p.items):
+                    p.items.append(("type", rng.choice(names), False))
         bases.append(p)
     cases = []   # (defect or None, site, plan)
     for b in bases:
